@@ -23,6 +23,7 @@ const (
 	hKSDel   = base.InternalKeyKindSingleDelete
 	hKDSized = base.InternalKeyKindDeleteSized
 	hKRDel   = base.InternalKeyKindRangeDelete
+	hKSetDel = base.InternalKeyKindSetWithDelete // what compactions write for SET/MERGE over a dropped tombstone; reads as SET
 )
 
 const hKeyLo, hKeyHi = byte('a'), byte('c') // the user-key alphabet
@@ -94,7 +95,7 @@ func hModelGet(h []hWrite, k byte, readSeq base.SeqNum) hModelVal {
 	for _, w := range h {
 		vis := w.seq < readSeq
 		onKey := w.key == k
-		isSet := sym.And(w.kind == hKSet, onKey)
+		isSet := sym.And(sym.Or(w.kind == hKSet, w.kind == hKSetDel), onKey)
 		isMerge := sym.And(w.kind == hKMerge, onKey)
 		isDel := sym.Or(sym.And(hIsPointTomb(w.kind), onKey), sym.And(w.kind == hKRDel, sym.And(w.key <= k, k < w.end)))
 		v := uint64(w.val)
@@ -209,7 +210,7 @@ func hBuildLevels(h []hWrite, L int) []mergingIterLevel {
 				continue
 			}
 			var v []byte
-			if w.kind == hKSet || w.kind == hKMerge {
+			if w.kind == hKSet || w.kind == hKMerge || w.kind == hKSetDel {
 				v = []byte{w.val}
 			}
 			kvs = append(kvs, base.InternalKV{K: base.MakeInternalKey([]byte{w.key}, w.seq, w.kind), V: base.MakeInPlaceValue(v)})
